@@ -61,10 +61,7 @@ type pgen struct {
 	inAsync   bool
 	catchable int // enclosing try-with-catch in the current function
 	strict    bool
-	// avoidGenClose: do not close (return()/break/destructure) a generator that has a finally block
-	// (exclusion neighbourhood of a listed known finding, see known-findings.d/C15.json)
-	avoidGenClose bool
-	noNested      bool
+	noNested  bool
 }
 
 func (g *pgen) id() int { g.uniq++; return g.uniq }
@@ -187,6 +184,18 @@ func (g *pgen) stmt() {
 		} else {
 			g.logS()
 		}
+	case 18:
+		if g.depth > 1 || g.inLoop > 0 || g.inFunc > 0 {
+			g.logS()
+			break
+		}
+		c := g.id()
+		g.emit("var x%d = 0; for (var i%d = 0; i%d < %d; i%d++) {", c, c, c, g.r.Range(150, 700), c)
+		g.push("loop")
+		g.emit("x%d += i%d;", c, c)
+		g.pop()
+		g.emit("}")
+		g.logS()
 	case 17:
 		switch {
 		case g.inLoop > 0 && g.r.Chance(2, 3):
@@ -380,9 +389,6 @@ func (g *pgen) genDecl(withFinally bool) int {
 func (g *pgen) genForOf() {
 	closes := g.r.Chance(1, 2)
 	withFinally := g.r.Chance(2, 3)
-	if g.avoidGenClose && closes {
-		withFinally = false
-	}
 	c := g.genDecl(withFinally)
 	if g.r.Chance(1, 6) {
 		// delegating generator
@@ -472,9 +478,6 @@ func (g *pgen) iterForOf() {
 func (g *pgen) genManual() {
 	closes := g.r.Chance(1, 2)
 	withFinally := g.r.Chance(2, 3)
-	if g.avoidGenClose && closes {
-		withFinally = false
-	}
 	c := g.genDecl(withFinally)
 	h := g.id()
 	g.emit("var h%d = g%d();", h, c)
@@ -572,7 +575,7 @@ func (g *pgen) nested() {
 	// generate the sub-program with its own unit
 	k := len(g.subs)
 	g.subs = append(g.subs, unit{})
-	sub := &pgen{r: g.r, uniq: g.uniq + 1000*(k+1), budget: 4, depth: 2, strict: g.strict, avoidGenClose: g.avoidGenClose, noNested: true}
+	sub := &pgen{r: g.r, uniq: g.uniq + 1000*(k+1), budget: 4, depth: 2, strict: g.strict, noNested: true}
 	u := unit{Name: fmt.Sprintf("sub%d.js", k)}
 	sub.u = &u
 	sub.ks = []string{"nested"}
@@ -655,7 +658,7 @@ func (g *pgen) misc() {
 }
 
 // genProgram builds one program.
-func genProgram(r *core.Rng, avoidGenClose bool) *program {
+func genProgram(r *core.Rng) *program {
 	p := &program{Entry: "program", Nested: "rethrow"}
 	if r.Chance(1, 4) {
 		p.Entry = "callable"
@@ -664,7 +667,7 @@ func genProgram(r *core.Rng, avoidGenClose bool) *program {
 		p.Nested = "swallow"
 	}
 	p.Strict = r.Chance(1, 5)
-	g := &pgen{r: r, budget: r.Range(3, 9), strict: p.Strict, avoidGenClose: avoidGenClose}
+	g := &pgen{r: r, budget: r.Range(3, 9), strict: p.Strict}
 	p.Main.Name = "main.js"
 	g.u = &p.Main
 	if p.Strict {
